@@ -162,6 +162,31 @@ func genC08(g *Gen) {
 			}
 		}
 	}
+	// (1b) big MapToCache batches onto caches that hold never-expiring / default / expiring entries; sizes: standard
+	// ones and thresholds a change introduced into the source
+	for _, b := range append([]int{40, 300}, func() []int {
+		var o []int
+		for _, s := range extraSizes() {
+			if s <= 40000 {
+				o = append(o, s-1, s, s+1)
+			}
+		}
+		return o
+	}()...) {
+		for _, exp := range []string{"-1", "0", "1000"} {
+			if !g.Mine() {
+				continue
+			}
+			var pairs []string
+			for i := 0; i < b; i++ {
+				pairs = append(pairs, "["+itoa(10+i)+","+itoa(1+i%7)+"]")
+			}
+			ops := []string{"set 0 5 -1", "set 1 6 0", "set 2 7 1000", "count", "maptocache " + plist(pairs) + " 0", "count",
+				"get 0", "get 1", "get 2", "get 10", "get " + itoa(9+b), "isexpired 0", "maptocache " + plist(append([]string{"[0,9]"}, pairs[:2]...)) + " -1",
+				"count", "get 0", "delexp", "count", "get 0", "get 1"}
+			g.Emit("cache", []string{exp, "0", "int"}, ops)
+		}
+	}
 	// (2) timed part: scripted sleeps placing observations before / at / after deadlines and ticks
 	n := 500
 	if g.Thorough() {
